@@ -1569,13 +1569,8 @@ def _strip_unit(a):
 
 
 def _linear_fn(name, q, lab, xp, fp, extra):
-    """interp(q; xp, fp) is linear in fp: a scalar factor of fp is pulled out."""
-    out = Poly()
-    for m, c in fp.t.items():
-        dep = tuple((a, e) for a, e in m if lab in alg.atom_labels(a))
-        ind = tuple((a, e) for a, e in m if lab not in alg.atom_labels(a))
-        out = out + Poly({ind: c}) * alg.mk_fn(name, P(q), B(lab, xp), B(lab, Poly({dep: Fraction(1)})), *extra)
-    return out
+    """interp(q; xp, fp) is linear in fp (alg.mk_fn pulls label-independent factors out)."""
+    return alg.mk_fn(name, P(q), B(lab, xp), B(lab, fp), *extra)
 
 
 class _Range:
